@@ -628,6 +628,83 @@ func childSdEvRace(a []string) string {
 	return "ok"
 }
 
+// sd.updaterace <attempts>: in a child process.  A remote client updates the description of a local service of the
+// hosting server with a very long endpoint list (its validation takes a while) while the server removes that service;
+// the removal starts at varying moments of the update.  Whatever the order of the two, once the removal has returned
+// the service is gone: not found by name, not listed, its name free again.
+func childSdUpdateRace(a []string) string {
+	var n int
+	fmt.Sscanf(a[0], "%d", &n)
+	w, res := sdNew()
+	if res != "ok" {
+		return res
+	}
+	defer w.close()
+	many := make([]string, 280000)
+	for i := range many {
+		many[i] = "tcp://198.51.100.7:9559"
+	}
+	// how long such an update takes from the call to its answer (most of it is the transport and the decoding; the
+	// validation and the write come at the end): the removals are spread over the second half of that time
+	var total time.Duration
+	{
+		s, err := w.srv.NewService("updprobe", sdNoop{})
+		if err != nil {
+			return "setup-error:" + err.Error()
+		}
+		info, err := w.sd.Service("updprobe")
+		if err != nil {
+			return "setup-error:" + err.Error()
+		}
+		info.Endpoints = many
+		t0 := time.Now()
+		if err := w.sd.UpdateServiceInfo(info); err != nil {
+			return "setup-error:update " + err.Error()
+		}
+		total = time.Since(t0)
+		s.Terminate()
+	}
+	for i := 0; i < n; i++ {
+		name := fmt.Sprintf("upd%d", i)
+		s, err := w.srv.NewService(name, sdNoop{})
+		if err != nil {
+			return "setup-error:" + err.Error()
+		}
+		info, err := w.sd.Service(name)
+		if err != nil {
+			return "fail:a local service is not found: " + err.Error()
+		}
+		info.Endpoints = many
+		done := make(chan error, 1)
+		go func() { done <- w.sd.UpdateServiceInfo(info) }()
+		time.Sleep(total * time.Duration(40+(i*65)/n) / 100)
+		s.Terminate()
+		select {
+		case <-done:
+		case <-time.After(20 * time.Second):
+			return "fail:the update has no answer"
+		}
+		if got, err := w.sd.Service(name); err == nil {
+			return fmt.Sprintf("fail:visible-after-removal service %d (%s) is found after its removal has returned (attempt %d)", got.ServiceId, name, i)
+		}
+		l, err := w.sd.Services()
+		if err != nil {
+			return "fail:" + err.Error()
+		}
+		for _, x := range l {
+			if x.Name == name {
+				return fmt.Sprintf("fail:visible-after-removal service %s is listed after its removal has returned (attempt %d)", name, i)
+			}
+		}
+		s2, err := w.srv.NewService(name, sdNoop{})
+		if err != nil {
+			return fmt.Sprintf("fail:name-not-free the name %s cannot be registered again after the removal: %v", name, err)
+		}
+		s2.Terminate()
+	}
+	return "ok"
+}
+
 var sdLastHistory string
 
 func init() {
@@ -649,6 +726,21 @@ func init() {
 		lastFailDetail = out.Stderr
 		if out.Result == "crash-noresult" {
 			return "crash"
+		}
+		return out.Result
+	}
+	children["sd.updaterace"] = childSdUpdateRace
+	executors["sd.updaterace"] = func(a []string) string {
+		out := runChild("sd.updaterace", strings.Join(a, " "), 120*time.Second, 0)
+		if out.Result != "ok" {
+			lastFailDetail = out.Stderr
+		}
+		if out.Result == "crash-noresult" {
+			return "crash"
+		}
+		if strings.HasPrefix(out.Result, "fail:") {
+			lastFailDetail = out.Result
+			return "fail"
 		}
 		return out.Result
 	}
@@ -853,6 +945,10 @@ func runC15(r *Rand, tier string, o *Out) {
 		races = 10
 	}
 	for i := 0; i < races; i++ {
+		if out := o.Do("P", "sd.updaterace 32", true); out != "ok" {
+			o.Fail("an update against a removal: "+strings.SplitN(strings.TrimPrefix(lastFailDetail, "fail:"), " ", 2)[0], "sd.updaterace 32 => "+out+" "+tail(lastFailDetail, 300))
+		}
+		o.Count("scenario:update-against-removal")
 		if out := o.Do("P", "sd.evrace 400", true); out != "ok" {
 			o.Fail("a state change of the directory and its event are not one step: "+out, "sd.evrace 400 => "+out+" "+tail(lastFailDetail, 300))
 		}
